@@ -49,6 +49,11 @@ public class Prims {
     return tuple(MessageDigest.getInstance("SHA-256").digest(bytes(msg)));
   }
 
+  @TLAPlusOperator(identifier = "OverridesLoaded", module = "SHA256", warn = false)
+  public static Value overridesLoaded() {
+    return tlc2.value.impl.BoolValue.ValTrue;
+  }
+
   @TLAPlusOperator(identifier = "Digest", module = "SHA512", warn = false)
   public static Value sha512op(final Value msg) throws Exception {
     return tuple(sha512(bytes(msg)));
